@@ -2,6 +2,7 @@ import GB.Base.Proto
 import GB.C19.Model
 import GB.C19.Join
 import GB.C19.Query
+import GB.C07.Wire
 /-
   C19 driver.  Lines (hex `x…`; `m:` multimap = `xKEY:xV1,xV2` joined by `;` sorted by key):
 
@@ -101,9 +102,42 @@ def rawClass (raw : Bytes) : String :=
 def queryTie (raw : Bytes) (q : MD) : Option String :=
   if sortMD q != sortMD (urlQuery raw) then some s!"DIFF model=q:{showMD (urlQuery raw)}" else none
 
+def parseLinePair (s : String) : Option (Bytes × Bytes) :=
+  match s.splitOn "=" with
+  | [k, v] => do let k ← parseHex k; let v ← parseHex v; pure (k, v)
+  | _ => none
+
+def parseLines (s : String) : Option (List (Bytes × Bytes)) :=
+  (dropPrefix? s "p:").bind fun b => if b.isEmpty then some [] else (b.splitOn ";").mapM parseLinePair
+
+/-- the header block exactly as `fake.RawConn.WriteRequest` puts it on the wire: a Host line, every given line as
+    `name: value CRLF` verbatim, a Content-Length line when there is a body, the blank line -/
+def wireBlock (lines : List (Bytes × Bytes)) (post : Bool) (extra : List (Bytes × Bytes) := []) : Bytes :=
+  ascii "Host: verif.test\r\n" ++
+  (extra ++ lines).flatMap (fun l => l.1 ++ [58, 32] ++ l.2 ++ [13, 10]) ++
+  (if post then ascii "Content-Length: 5\r\n" else []) ++ [13, 10]
+
+/-- the recorded `r.Header` must be what the model of net/textproto + net/http's server makes of the bytes sent -/
+def headerTie (block : Bytes) (seen : MD) : Option String :=
+  match GB.C07.serverHeader block with
+  | none => some "DIFF model=rejected (net/http answers 400 to this header block)"
+  | some h => if sortMD seen != sortMD h then some s!"DIFF model=seen:{showMD h}" else none
+
+def targetSafe (raw : Bytes) : Bool := raw.all (fun c => c > 32 && c != 127)
+
 def handle : Handler
-  | ["disp", _m, rqIn, _lines], outs =>
-    if outs.head? == some "rejected" then "OK b=disp-rejected-by-net/http" else
+  | ["disp", meth, rqIn, linesS], outs =>
+    let block := (parseLines linesS).map (fun ls => wireBlock ls (meth == "POST"))
+    if outs.head? == some "rejected" then
+      (match block, parseHex rqIn with
+       | some b, some raw =>
+         if (GB.C07.serverHeader b).isSome && targetSafe raw then "DIFF model=accepted (the wire model lets this header block through)"
+         else "OK nt b=disp-rejected-by-net/http"
+       | _, _ => "BAD disp lines") else
+    let htie := match block, (field outs "seen").bind parseM with
+      | some b, some seen => headerTie b seen
+      | _, _ => some "BAD disp lines"
+    if let some d := htie then d else
     let qtie := match parseHex rqIn, (field outs "q").bind parseM with
       | some raw, some q => queryTie (dispRawQuery raw) q
       | _, _ => some "BAD disp raw query"
